@@ -4,6 +4,7 @@ import (
 	"bytes"
 	"encoding/json"
 	"fmt"
+	"os"
 	"runtime"
 	"sync"
 	"time"
@@ -25,10 +26,24 @@ type c05Case struct {
 	Version  int64  `json:"version"`
 	Key      string `json:"key_hex"`
 	NKeys    int    `json:"universe_size"`
+	Universe string `json:"universe,omitempty"` // "" = one-byte keys; "prefix" = keys that extend one another
 	Mutation string `json:"mutation,omitempty"`
 }
 
 var c05Vals = [][]byte{[]byte("v1"), []byte("v2"), []byte("")}
+
+// c05UniverseNamed: "prefix" is a universe of keys that are prefixes / extensions of one another (and probe keys
+// that extend a stored key, lie between an extension and its base, or are cut short).
+func c05UniverseNamed(name string, n int) (keys, probes [][]byte) {
+	if name != "prefix" {
+		return c05Universe(n)
+	}
+	keys = [][]byte{{0x10}, {0x10, 0x10}, {0x10, 0x10, 0x00}, {0x20}, {0x20, 0xff}}
+	probes = append(probes, keys...)
+	probes = append(probes, []byte{0x05}, []byte{0x10, 0x00}, []byte{0x10, 0x05}, []byte{0x10, 0x10, 0x00, 0x00}, []byte{0x10, 0x10, 0x01}, []byte{0x10, 0x20},
+		[]byte{0x15}, []byte{0x20, 0x00}, []byte{0x20, 0xfe}, []byte{0x20, 0xff, 0x00}, []byte{0x21}, []byte{0x0f, 0xff})
+	return
+}
 
 func c05Universe(n int) (keys, probes [][]byte) {
 	for i := 0; i < n; i++ {
@@ -136,6 +151,8 @@ type c05Mut struct {
 	store string
 	value []byte
 	exist bool
+	// trueOK: accepting the altered proof is legitimate when the accepted statement is true
+	trueOK bool
 }
 
 func cloneProof(p *merkle.Proof) *merkle.Proof {
@@ -184,13 +201,24 @@ func cloneRange(p *iavl.RangeProof) *iavl.RangeProof {
 func c05Mutations(orig *merkle.Proof, root, key, value []byte, exist bool, others [][]byte) []c05Mut {
 	var out []c05Mut
 	add := func(name string, p *merkle.Proof, r, k []byte, store string, v []byte, ex bool) {
-		out = append(out, c05Mut{name, p, r, k, store, v, ex})
+		out = append(out, c05Mut{name: name, proof: p, root: r, key: k, store: store, value: v, exist: ex})
 	}
 	base := func() *merkle.Proof { return cloneProof(orig) }
 	// key / value / root / claim kind
 	for _, ok := range others {
 		if !bytes.Equal(ok, key) {
 			add(fmt.Sprintf("key:other@%x", ok), base(), root, ok, "acc", value, exist)
+		}
+	}
+	// the proof re-targeted consistently (op key and verified key path) at another key: an absence proof does
+	// prove the absence of every key in the same gap, so acceptance counts only if the statement is false
+	if len(orig.Ops) == 2 {
+		for _, ok := range others {
+			if !bytes.Equal(ok, key) {
+				p := base()
+				p.Ops[0].Key = ok
+				out = append(out, c05Mut{name: fmt.Sprintf("rekey:other@%x", ok), proof: p, root: root, key: ok, store: "acc", value: value, exist: exist, trueOK: !exist})
+			}
 		}
 	}
 	add("store-name:other", base(), root, key, "other", value, exist)
@@ -399,7 +427,7 @@ func c05Forgeries(orig *merkle.Proof, root, key []byte, present map[string][]byt
 		np.InnerNodes = []iavl.PathToLeaf{{}}
 		p := cloneProof(orig)
 		p.Ops[0] = iavl.NewValueOp(fk, np).ProofOp()
-		out = append(out, c05Mut{fmt.Sprintf("forgery:leaf-under-ignored-right-child@node%d", ni), p, root, fk, "acc", fv, true})
+		out = append(out, c05Mut{name: fmt.Sprintf("forgery:leaf-under-ignored-right-child@node%d", ni), proof: p, root: root, key: fk, store: "acc", value: fv, exist: true})
 	}
 	return out
 }
@@ -486,6 +514,9 @@ func c05RunCase(c *ev.Ctx, cs c05Case, keys, probes [][]byte, onlyMutation strin
 		}
 		// altering a claim into another TRUE claim is not a forgery (e.g. key changed to another present key with the same value is still false unless proof covers it)
 		nver++
+		if os.Getenv("VERIF_DEBUG") != "" && onlyMutation != "" {
+			fmt.Fprintf(os.Stderr, "DEBUG mutation %s key=%x exist=%v -> %v\n", mu.name, mu.key, mu.exist, c05Verify(mu.proof, mu.root, mu.store, mu.key, mu.value, mu.exist))
+		}
 		if e := c05Verify(mu.proof, mu.root, mu.store, mu.key, mu.value, mu.exist); e == nil {
 			// accepted: is the accepted statement actually true in the committed state?
 			tv, tp := m[string(mu.key)]
@@ -496,6 +527,8 @@ func c05RunCase(c *ev.Ctx, cs c05Case, keys, probes [][]byte, onlyMutation strin
 				e2 := fmt.Errorf("altered proof accepted for a FALSE statement: mutation %q on the proof for key %x (version %d, tree %s): verifier accepts key=%x value=%s exist=%v", mu.name, key, cs.Version, fmtMap(m), mu.key, hx(mu.value), mu.exist)
 				c.Report("sound/false-statement/"+c05MutClass(mu.name), e2.Error(), cs2)
 				err = e2
+			} else if mu.trueOK {
+				c.Outcome("retargeted-absence-proof-accepted-for-another-absent-key")
 			} else {
 				e2 := fmt.Errorf("altered proof still verifies: mutation %q on the proof for key %x (version %d, tree %s)", mu.name, key, cs.Version, fmtMap(m))
 				c.Report("sound/malleable/"+c05MutClass(mu.name), e2.Error(), cs2)
@@ -513,8 +546,7 @@ func init() {
 			if c.Tier == "thorough" {
 				n = 7
 			}
-			keys, probes := c05Universe(n)
-			c.Rule = fmt.Sprintf("every subset of %d keys x 3 insertion orders committed as version 1, then modified and committed as version 2, in a 3-substore rootmulti.Store; for both versions and every probe key (every key of the universe, keys between, below and above): ABCI store query with proof, verified with the default proof runtime against that version's commit hash (existence with the stored value / absence); then every single-field alteration of key, value, claim kind, root, proof-op envelope, multistore proof (each store hash/version/name, drop, extra) and IAVL range proof (each inner node's height/size/version/left/right: flip, drop, move, fill the empty sibling, drop/duplicate node; each leaf's key/value-hash/version, drop/duplicate/extra/swapped leaves) plus forged leaves hung under an inner node's unused sibling: each must fail to verify. Distinct non-trivial case = (subset, order, version, key) with a non-empty tree", n)
+			c.Rule = fmt.Sprintf("every subset of %d one-byte keys, and of 5 keys that are prefixes/extensions of one another, x 3 insertion orders committed as version 1, then modified and committed as version 2, in a 3-substore rootmulti.Store; for both versions and every probe key (every key of the universe, keys between, below and above): ABCI store query with proof, verified with the default proof runtime against that version's commit hash (existence with the stored value / absence); then every single-field alteration of key, value, claim kind, root, proof-op envelope, multistore proof (each store hash/version/name, drop, extra) and IAVL range proof (each inner node's height/size/version/left/right: flip, drop, move, fill the empty sibling, drop/duplicate node; each leaf's key/value-hash/version, drop/duplicate/extra/swapped leaves) plus forged leaves hung under an inner node's unused sibling: each must fail to verify; a proof consistently re-targeted at another key may only be accepted for a true statement (an absence proof covers its whole gap). Distinct non-trivial case = (subset, order, version, key) with a non-empty tree", n)
 			type job struct{ cs c05Case }
 			jobs := make(chan c05Case, 256)
 			var wg sync.WaitGroup
@@ -529,6 +561,7 @@ func init() {
 						if c.Expired() {
 							continue
 						}
+						keys, probes := c05UniverseNamed(cs.Universe, cs.NKeys)
 						nv, _ := c05RunCase(c, cs, keys, probes, "")
 						lc++
 						lv += nv
@@ -539,15 +572,20 @@ func init() {
 					mu.Unlock()
 				}()
 			}
-			for mask := 0; mask < 1<<n; mask++ {
-				for order := 0; order < 3; order++ {
-					for ver := int64(1); ver <= 2; ver++ {
-						for _, pk := range probes {
-							cs := c05Case{Mask: mask, Order: order, Version: ver, Key: fmt.Sprintf("%x", pk), NKeys: n}
-							if mask != 0 {
-								c.Distinct(fmt.Sprintf("%d|%d|%d|%x", mask, order, ver, pk))
+			nprobes := 0
+			for _, uni := range []string{"", "prefix"} {
+				ukeys, probes := c05UniverseNamed(uni, n)
+				nprobes += len(probes)
+				for mask := 0; mask < 1<<len(ukeys); mask++ {
+					for order := 0; order < 3; order++ {
+						for ver := int64(1); ver <= 2; ver++ {
+							for _, pk := range probes {
+								cs := c05Case{Mask: mask, Order: order, Version: ver, Key: fmt.Sprintf("%x", pk), NKeys: len(ukeys), Universe: uni}
+								if mask != 0 {
+									c.Distinct(fmt.Sprintf("%s|%d|%d|%d|%x", uni, mask, order, ver, pk))
+								}
+								jobs <- cs
 							}
-							jobs <- cs
 						}
 					}
 				}
@@ -558,7 +596,7 @@ func init() {
 			c.AddTransitions(vers)
 			c.AddTraces(cases)
 			c.Sample(map[string]interface{}{"subset_mask": 0b10110, "insertion_order": "inside-out", "version": 1, "key": "25", "claim": "absence", "mutations": "≈60-150 single-field alterations + forgeries"})
-			c.BoundDone = fmt.Sprintf("universe=%d keys, subsets=%d, orders=3, versions=2, probe keys=%d, proofs=%d, verifications=%d", n, 1<<n, len(probes), cases, vers)
+			c.BoundDone = fmt.Sprintf("universe=%d keys, subsets=%d, orders=3, versions=2, probe keys=%d, proofs=%d, verifications=%d", n, 1<<n, nprobes, cases, vers)
 		},
 		Replay: func(raw json.RawMessage) (string, error) {
 			var cs c05Case
@@ -568,7 +606,7 @@ func init() {
 			if cs.NKeys == 0 {
 				cs.NKeys = 5
 			}
-			keys, probes := c05Universe(cs.NKeys)
+			keys, probes := c05UniverseNamed(cs.Universe, cs.NKeys)
 			c := ev.NewCtx("C05-replay", "quick", 0, time.Minute)
 			_, err := c05RunCase(c, cs, keys, probes, cs.Mutation)
 			return fmt.Sprintf("%+v", cs), err
